@@ -58,7 +58,13 @@ def grid_items(rng, npool, nrand):
                     for b in P:
                         calls.append({"op": "call", "inst": 1, "export": name, "args": [val(t, a), val(t, b)]})
             else:
-                for a in P:
+                # unary operators: the pool plus every bit position as lowest set bit, highest set bit and lone bit
+                # (table-driven and loop-driven fallbacks of clz/ctz/popcnt have one case per position)
+                M_ = (1 << bits) - 1
+                U = list(P)
+                for k in range(bits):
+                    U += [1 << k, (M_ << k) & M_, (1 << k) - 1, (1 << k) | (1 << (bits - 1)), M_ >> k, (0x5A5A5A5A5A5A5A5B << k) & M_]
+                for a in dict.fromkeys(U):
                     calls.append({"op": "call", "inst": 1, "export": name, "args": [val(t, a)]})
         for o in IBIN:
             add(o, 0, [["local.get", 0], ["local.get", 1], ["%s.%s" % (t, o)], ["end"]], 2)
@@ -136,6 +142,10 @@ def main():
            "word_selfcheck_states": wc["distinct"], "replay_states": st["states"],
            "builds": [b["name"] for b in builds], "programs_generated": nprog,
            "ops_skipped_undefined": st["ops_skipped_undefined"], "exhaustive": False}
+    # the repository's own spec-suite corpus for this instruction family: model vs the suite's expectations, w2c2 vs model
+    sys.path.insert(0, os.path.dirname(os.path.abspath(__file__)))
+    import corpus
+    cov.update(corpus.phase(v, "C01", tier))
     return v.finish("model_checking", cov,
                     ["TLC's evaluation of Word.tla at width 32/64 is trusted because the same text is checked exhaustively at width 8",
                      "gcc 12 / clang 14 on x86-64 only", "operand values are a boundary pool plus seeded random values, not all 2^64"])
